@@ -64,6 +64,7 @@ type FaultReplay struct {
 	Disk2    *Disk         `json:"disk_b,omitempty"`
 	Result   *comp.Result  `json:"result,omitempty"`
 	Result2  *comp.Result  `json:"result_b,omitempty"`
+	CLI      bool          `json:"through_cli,omitempty"` // the failure is the command-line front end's
 }
 
 func compileOn(input string, o *comp.Options, d *Disk) comp.Result {
@@ -200,6 +201,12 @@ func (fr *faultRun) observe(kind, desc, input string, o *comp.Options, d *Disk, 
 	transp.maybe(input, o, &res)
 	if or, detail := unaryOracle(input, o, &res); or != "" {
 		fr.report(or, detail, &FaultReplay{Kind: kind, Desc: desc, Input: input, Options: *o, Disk: d, Result: &res})
+	} else if cli != nil && d != nil && d.Fault.Kind == "" && o.FontPath == "font_config.json" && rng.H(rng.HashStr(input), 0xc11)%40 == 0 {
+		// a sample (1 in 40, keyed by the input) also goes through the command-line front end
+		st.CLIChecked++
+		if detail := cliCrashCheck(input, o, &res, d.Files["font_config.json"]); detail != "" {
+			fr.report("cli-crash", detail, &FaultReplay{Kind: kind, Desc: desc, Input: input, Options: *o, Disk: d, Result: &res, CLI: true})
+		}
 	}
 	return res
 }
@@ -242,6 +249,17 @@ func faultEval(rp *FaultReplay) (string, string) {
 	res := compileOn(rp.Input, &rp.Options, cloneDisk(rp.Disk))
 	if or, d := unaryOracle(rp.Input, &rp.Options, &res); or != "" {
 		return or, d
+	}
+	if rp.CLI {
+		if cli == nil {
+			cli = newCLI("")
+		}
+		if rp.Disk != nil {
+			if detail := cliCrashCheck(rp.Input, &rp.Options, &res, rp.Disk.Files["font_config.json"]); detail != "" {
+				return "cli-crash", detail
+			}
+		}
+		return "", ""
 	}
 	if rp.Options2 != nil {
 		in2 := rp.Input2
@@ -346,6 +364,8 @@ func FaultWorker(pm *Params) (*Stats, []*Failure) {
 	total := &Digest{}
 	transp = newTranspLogger(pm.TranspOut)
 	defer func() { transp.close(); transp = nil }()
+	cli = newCLI(pm.DistinctOut)
+	defer func() { cli.close(); cli = nil }()
 	for i := pm.From; i < pm.Count; i += pm.Stride {
 		fr := &faultRun{pm: pm, st: st, run: i, seed: rng.RunSeed(pm.VerifSeed, "C18", i), digest: &Digest{}}
 		beginRun(pm, i)
